@@ -26,7 +26,7 @@ def conformance(prop, tier, seed, work, ev, drv):
     n = generate(work, "enum", cases, {"SMALL": str(t["small"]), "MAXLEN": str(t["maxlen"])})
     obs = work.path("slice.obs")
     run_driver(drv, ["run", "slice"], cases, obs)
-    stats, rej = judge("tv/TV_Slice.tla", "TV.cfg", obs, work)
+    stats, rej = judge("tv/TV_Slice.tla", None, obs, work)
     ev.add_judged("enumerated (len<=%d, |x|<=%d + i32 edges)" % (t["maxlen"], t["small"]), stats, rej, obs)
     rejects += rej
     # impl -> spec: random larger tuples drawn by the driver, spelled and judged by TLC
@@ -36,7 +36,7 @@ def conformance(prop, tier, seed, work, ev, drv):
     generate(work, "spell", rcases, {"IN": params})
     robs = work.path("slice.robs")
     run_driver(drv, ["run", "slice"], rcases, robs)
-    stats, rej = judge("tv/TV_Slice.tla", "TV.cfg", robs, work)
+    stats, rej = judge("tv/TV_Slice.tla", None, robs, work)
     ev.add_judged("random (len<=60, whole i32 range)", stats, rej, robs)
     rejects += rej
     return rejects
@@ -63,7 +63,7 @@ def replay(prop, path, work):
         f.write(json.dumps(rec) + "\n")
     obs = work.path("o")
     run_driver(drv, ["run", "slice"], cases, obs)
-    stats, rej = judge("tv/TV_Slice.tla", "TV.cfg", obs, work, chunks=1)
+    stats, rej = judge("tv/TV_Slice.tla", None, obs, work, chunks=1)
     o = json.loads(open(obs).read())
     print("observation:", json.dumps(o.get("out")))
     if rej:
